@@ -714,6 +714,12 @@ single(Fn("r_u32", ("impl", ["F0"]), ["u64"], ret="u32r", calls=["f0"]))
 single(Fn("r_i32", ("any", []), [], ret="i32r"))
 single(Fn("r_usize", ("impl", ["F0"]), [], ret="usizer"))
 single(Fn("ar_u8", ("impl", ["Af0"]), ["u64"], ret="u8r", is_async=True))
+# dependency bounds that name `Clone` (and `Send`): the function must still get the receiver itself,
+# not a clone of it (the handle is a small Clone application; identity = its address)
+for _n, _b, _asy in (("cl_send", ["F0", "Clone", "Send", "Sync", "'static"], False), ("acl_send", ["Af0", "Clone", "Send", "Sync", "'static"], True),
+                     ("acl_only", ["Af0", "Clone"], True), ("acl_gen", ["Af0", "Send", "Clone"], True)):
+    _f = single(Fn(_n, ("gen" if _n == "acl_gen" else "impl", _b), ["u64", "u64"], is_async=_asy, bundle_args="-", calls=(["af0"] if _asy else ["f0"])))
+    _f.small_handle = True
 # a second lifetime with an outlives bound; an unbounded generic behind a reference (no_deps: it is
 # the FIRST parameter, where a dependency would be); attributes on parameters
 single(Fn("lt_b", ("impl", ["F0"]), ["refa", "refb"], ret="refarg", props=("C01", "C14")))
@@ -1582,6 +1588,52 @@ def copy_supertrait():
 
 corpus.append("#[derive(Clone, Copy)]\npub struct CopyApp {\n    pub base: u64,\n}\n")
 copy_supertrait()
+def unsized_param_trait(name, delegate, methods):
+    """generic entraited trait with a `?Sized` type parameter, instantiated with `str`; the application
+    hands out the provider AND implements the trait itself (decoy 60003: reaching it means Impl<T>
+    did not implement the trait for the unsized instantiation and the call fell through Deref)"""
+    cid = new_container()
+    cfg = ccfg(cid)
+    for fn in methods:
+        fn.cid = cid
+        fn.container_hetero = False
+        FN_COUNTER[0] += 2
+        fn.fn_id = FN_COUNTER[0] - 1
+        fn.fn_ids = (fn.fn_id, fn.fn_id + 1)
+        fn.method_id = METHOD_COUNTER[0]
+        METHOD_COUNTER[0] += 1
+        fn.section = "trait"
+        fn.props = ["C06"]
+        fn.dynamic = True
+        METHODS.append(fn)
+        ALL_FNS[fn.name] = fn
+    opt = {"ref": "delegate_by = ref", "borrow": "delegate_by = Borrow"}[delegate]
+    field = f"prov_{name.lower()}"
+    APP_FIELDS.append(field)
+    k = lookup_kind(name)
+    text = cmark(cid)
+    text += f"{cfg}#[entrait({opt})]\npub trait {name}<K: ?Sized + 'static>: 'static {{\n" + "".join(decl_text(m) for m in methods) + "}\n"
+    text += f"{cfg}impl {name}<str> for Prov {{\n" + "".join(self_impl_fn_text(m, f"{m.fn_id} + self.which") for m in methods) + "}\n"
+    tr, fnm = ("AsRef", "as_ref") if delegate == "ref" else ("::core::borrow::Borrow", "borrow")
+    text += (f"{cfg}impl<const K: u16> {tr}<dyn {name}<str>> for App<K> {{\n    fn {fnm}(&self) -> &(dyn {name}<str> + 'static) {{\n"
+             f"        sim::lookup({k});\n        &self.{field}\n    }}\n}}\n")
+    text += f"{cfg}impl<const K: u16> {name}<str> for App<K> {{\n"
+    for m in methods:
+        ps = ["&self"] + [p.sig(i, m.name) for i, p in enumerate(m.params)]
+        text += (f"    fn {m.name}({', '.join(ps)}){RET_TEXT[m.ret]} {{\n        let __f = sim::enter(60003, sim::addr(self), &[]);\n"
+                 + "\n".join("        " + l for l in ret_tail(m, "")) + "\n    }\n")
+    text += "}\n"
+    for m in methods:
+        m.recv_expr = f"sim::addr(&app.{field})"
+        m.lookups = 1
+        m.lookup_kind = k
+        m.trait_call = f"app.{m.name}({{args}})"
+        m.direct_call = f"{name}::<str>::{m.name}(&app.{field}, {{args}})"
+    corpus.append(text + cmark(0))
+
+
+unsized_param_trait("ByRefUnsized", "ref", [Fn("ruz1", SELF, ["u64", "u64"]), Fn("ruz_unit", SELF, ["u64"], ret="unit")])
+unsized_param_trait("ByBorrowUnsized", "borrow", [Fn("buz1", SELF, ["u64", "u64"])])
 corpus.append("pub struct TagX;\npub struct TagY;\n")
 tagged_trait("PlainTags", "self", [Fn("ptag1", SELF, ["u64", "u64"]), Fn("ptag_unit", SELF, ["u64"], ret="unit"), Fn("aptag1", SELF, ["u64", "u64"], is_async=True)])
 tagged_trait("ByRefTags", "ref", [Fn("rtag1", SELF, ["u64", "u64"]), Fn("rtag2", SELF, ["u64", "u64"])])
@@ -2698,6 +2750,10 @@ def arm(fn, ab, is_async, mock=False):
         tc, dc, recv = fn.trait_call, fn.direct_call, fn.recv_expr
     else:
         tc, dc, recv = plain_calls(fn)
+    if getattr(fn, "small_handle", False) and not mock:
+        pre = pre + ["let __small = Impl::new(SmallApp { token: v[7] });"]
+        path = f"{fn.container}::{fn.name}" if fn.container else fn.name
+        tc, dc, recv = f"__small.{fn.name}({{args}})", f"{path}(&__small, {{args}})", "sim::addr(&__small)"
     other = f"crate::corpus::other_{ab.lower()}()"
     args = args.replace("{OTHER}", other)
     fps = [f.replace("{OTHER}", other) for f in fps]
